@@ -1069,6 +1069,10 @@ int sexp_poll_port(sexp ctx, sexp port, int inputp) {
 }
 #endif
 
+#if defined(CHIBI_VERIF) && SEXP_USE_GREEN_THREADS
+#include "opt/verif-vm.c"
+#endif
+
 sexp sexp_apply (sexp ctx, sexp proc, sexp args) {
   unsigned char *ip;
   sexp bc, cp, *stack = sexp_stack_data(sexp_context_stack(ctx)), tmp;
@@ -1085,6 +1089,9 @@ sexp sexp_apply (sexp ctx, sexp proc, sexp args) {
 #endif
   sexp_gc_var3(self, tmp1, tmp2);
   sexp_gc_preserve3(ctx, self, tmp1, tmp2);
+#if defined(CHIBI_VERIF) && SEXP_USE_GREEN_THREADS
+  fuel = verif_slice(ctx, fuel);
+#endif
   fp = top - 4;
   self = sexp_global(ctx, SEXP_G_FINAL_RESUMER);
   bc = sexp_procedure_code(self);
@@ -1144,6 +1151,10 @@ sexp sexp_apply (sexp ctx, sexp proc, sexp args) {
     }
     fuel = sexp_context_refuel(ctx);
     if (fuel <= 0) goto end_loop;
+#ifdef CHIBI_VERIF
+    fuel = verif_slice(ctx, fuel);
+    if (sexp_context_waitp(ctx)) verif_deadlock_check(ctx);
+#endif
     if (sexp_context_waitp(ctx)) {
       fuel = 1;
       goto loop;  /* we were still waiting, try again */
